@@ -8,13 +8,31 @@ The implementation driver (harness/drv_ref.cpp -> .build/hgv_ref) runs, per case
         -> 1..3 counting consumers + the stdlib recorder reading through the reference
     record(a), record(b)[, record(c)]
 
+or, for the CHAINED configurations (`cfg ... tree:<T>`), a selection TREE in place of the single operator:
+
+    T ::= a|b|c|d | i(T,T) | m(T,T,T) | p(T)       if_then_else / if_cmp whose branches are targets or the
+                                                   un-dereferenced REF outputs of other selection operators,
+                                                   optionally handed through a nested_ graph (p)
+
+with one replayed selector per selection node (`s<k>=<branch>`, nodes numbered in pre-order, root = 0),
+
 and prints, per engine cycle, whether the REF output ticked, what the recorders on the targets stored,
 what the recorder through the reference stored, and what every evaluated consumer saw.
 
 The monitor below decides the property on that trace alone.  Its only own machinery is a text parser
 and the obvious reference bookkeeping: the contents of every target (folded from the recorders on the
-targets themselves) and the selected target (from the `sel=` tokens of the input).  It does not know
-about links, subscriptions or transitions.
+targets themselves) and the selected target (from the `sel=` / `s<k>=` tokens of the input).  It does not
+know about links, subscriptions, transitions, or which node was evaluated when.
+
+Reading of a selection tree (state-based, no events): every selection node designates what its currently
+selected branch designates; the consumer reads the target the ROOT designates.  It must be evaluated when that
+target ticks or when the designated target changes to a valid one (sampled value), and must not be when
+neither happens (a path change that resolves to the same target included).  A node whose selector is unset,
+or whose selected branch designates nothing yet, KEEPS what it designated before (nothing, at the start):
+that is what `if_then_else` does in the code and in hgraph's Python implementation (`if true_value.valid:`),
+so the reference is "unset" only until the first complete resolution; afterwards a switch to a branch that
+has no reference yet leaves the old reference in place (feature `stale-reference-kept`, Lean
+`chain_out_spec` / `staleExample`).
 
 Finding of the real code (raised by the last stream only, tag in the message):
   [C13-A]  `delta_value()` (`In<TSS/TSD>::delta()`) read through a reference in a retarget cycle is the
@@ -91,6 +109,106 @@ LEVEL_NOTE = ("PARTIAL by design: the model is the linking contract (linking_str
 SHAPES = ["ts", "tss", "tsd"]
 KEYS = [1, 2, 3, 4, 5]
 EXE = [os.path.join(BUILD, "hgv_ref")]
+
+
+# ------------------------------------------------------------------ selection trees
+MAX_TARGETS, MAX_SEL, MAX_DEPTH = 4, 6, 4
+
+
+class TNode:
+    def __init__(self, kind, target=None, sel=None):
+        self.kind, self.target, self.sel, self.kids = kind, target, sel, []
+
+
+class Tree:
+    """parsed `T` (same grammar and limits as both drivers); nodes[0] is the root"""
+    def __init__(self, text):
+        self.text, self.nodes, self.nsel, self.ntargets, self.arity, self.ok = text, [], 0, 0, [], False
+        try:
+            pos = self._parse(0, 1)
+            self.ok = pos == len(text) and self.nodes[0].kind in "im"
+        except (IndexError, ValueError):
+            self.ok = False
+        self.sel_nodes = {n.sel: i for i, n in enumerate(self.nodes) if n.kind in "im"}
+
+    def _parse(self, pos, depth):
+        if depth > MAX_DEPTH:
+            raise ValueError
+        ch = self.text[pos]
+        if "a" <= ch < chr(ord("a") + MAX_TARGETS):
+            self.nodes.append(TNode("l", target=ord(ch) - 97))
+            self.ntargets = max(self.ntargets, ord(ch) - 96)
+            return pos + 1
+        if ch not in "imp" or self.text[pos + 1] != "(":
+            raise ValueError
+        want = {"i": 2, "m": 3, "p": 1}[ch]
+        node = TNode(ch)
+        if ch != "p":
+            if self.nsel >= MAX_SEL:
+                raise ValueError
+            node.sel = self.nsel
+            self.nsel += 1
+            self.arity.append(want)
+        self.nodes.append(node)
+        pos += 2
+        for k in range(want):
+            if k:
+                if self.text[pos] != ",":
+                    raise ValueError
+                pos += 1
+            node.kids.append(len(self.nodes))
+            pos = self._parse(pos, depth + 1)
+        if self.text[pos] != ")":
+            raise ValueError
+        return pos + 1
+
+    def depth(self, n=0):
+        return 0 if self.nodes[n].kind == "l" else 1 + max(self.depth(k) for k in self.nodes[n].kids)
+
+    def designate(self, conds, cur):
+        """one cycle of the state-based reading: new designation of every node, bottom-up (kids have higher indices)"""
+        new = [None] * len(self.nodes)
+        for i in range(len(self.nodes) - 1, -1, -1):
+            n = self.nodes[i]
+            if n.kind == "l":
+                new[i] = n.target
+            elif n.kind == "p":
+                new[i] = new[n.kids[0]]
+            else:
+                b = conds.get(n.sel)
+                below = new[n.kids[b]] if b is not None else None
+                new[i] = below if below is not None else cur[i]
+        return new
+
+    def resolve(self, conds, n=0):
+        """follow the current selections from node n; None when a selector on the way is unset"""
+        node = self.nodes[n]
+        if node.kind == "l":
+            return node.target
+        if node.kind == "p":
+            return self.resolve(conds, node.kids[0])
+        b = conds.get(node.sel)
+        return None if b is None else self.resolve(conds, node.kids[b])
+
+    def path(self, conds, n=0):
+        """selection nodes on the current path from node n (stops at an unset selector)"""
+        node = self.nodes[n]
+        if node.kind == "l":
+            return []
+        if node.kind == "p":
+            return self.path(conds, node.kids[0])
+        b = conds.get(node.sel)
+        return [node.sel] + ([] if b is None else self.path(conds, node.kids[b]))
+
+
+FLAT = {False: Tree("i(a,b)"), True: Tree("m(a,b,c)")}
+TREES = {}
+
+
+def tree_of(text):
+    if text not in TREES:
+        TREES[text] = Tree(text)
+    return TREES[text]
 
 
 # ------------------------------------------------------------------ generator
@@ -218,6 +336,214 @@ def gen_case(rng, idx, maxlen):
     return render(rng, idx, shape, ncons, stage, cmp, abstract[:maxlen + 4])
 
 
+# ---- chained references: selection trees ------------------------------------------------------
+# fixed topologies (weight, text): two-level trees, shared targets below different branches, if_cmp inside /
+# outside, nested pass-through of an inner reference, depth 3
+TOPOLOGIES = [
+    (5, "i(i(a,b),c)"), (3, "i(a,i(b,c))"), (5, "i(i(a,b),i(c,d))"), (3, "i(i(a,b),i(b,a))"), (2, "i(i(a,b),i(b,c))"),
+    (3, "i(m(a,b,c),d)"), (2, "m(i(a,b),c,i(c,d))"), (2, "i(m(a,b,c),i(a,d))"), (2, "m(a,m(b,c,d),i(a,b))"),
+    (3, "i(p(i(a,b)),c)"), (2, "i(p(i(a,b)),p(i(c,a)))"), (1, "i(p(p(i(a,b))),m(c,a,d))"),
+    (3, "i(i(i(a,b),c),d)"), (2, "i(i(a,i(b,c)),d)"), (2, "m(a,i(i(b,c),d),b)"), (2, "i(i(i(a,b),i(c,d)),i(a,i(d,b)))"),
+]
+
+
+def random_tree_text(rng):
+    """a random selection tree within the limits of the drivers (root i|m, <= 6 selectors, depth <= 4)"""
+    budget = [rng.randint(2, MAX_SEL)]
+
+    def rec(depth, root=False):
+        if not root and (depth >= MAX_DEPTH or budget[0] <= 0 or rng.random() < 0.3 + 0.15 * depth):
+            return rng.choice("abcd"[:rng.choice([2, 3, 4, 4])])
+        if not root and depth < MAX_DEPTH - 1 and rng.random() < 0.12:
+            inner = rec(depth + 1)
+            return "p(%s)" % inner if len(inner) > 1 else inner
+        budget[0] -= 1
+        if rng.random() < 0.25:
+            return "m(%s,%s,%s)" % (rec(depth + 1), rec(depth + 1), rec(depth + 1))
+        return "i(%s,%s)" % (rec(depth + 1), rec(depth + 1))
+    while True:
+        txt = rec(1, True)
+        t = tree_of(txt)
+        if t.ok and t.nsel >= 2:       # at least one reference-shaped branch
+            return txt
+
+
+def leaf_paths(tree, n=0):
+    """all root-to-leaf selections: ([(selector, branch), ...], target)"""
+    node = tree.nodes[n]
+    if node.kind == "l":
+        return [([], node.target)]
+    if node.kind == "p":
+        return leaf_paths(tree, node.kids[0])
+    out = []
+    for b, k in enumerate(node.kids):
+        out += [([(node.sel, b)] + rest, t) for rest, t in leaf_paths(tree, k)]
+    return out
+
+
+def random_chain_cycles(rng, tree, n, conds, p_sel=None):
+    letters = "abcd"[:tree.ntargets]
+    p_sel = p_sel if p_sel is not None else min(0.3, 0.7 / tree.nsel)
+    out = []
+    for _ in range(n):
+        sels = {}
+        for k in range(tree.nsel):
+            if rng.random() < p_sel:
+                cur = conds.get(k)
+                if cur is not None and rng.random() < 0.25:
+                    sels[k] = cur
+                else:
+                    sels[k] = rng.choice([b for b in range(tree.arity[k]) if b != cur])
+                conds[k] = sels[k]
+        out.append((sels, [l for l in letters if rng.random() < 0.36]))
+    return out
+
+
+def chain_scenario(rng, tree, name, conds):
+    """named timing scenarios of chained references, built on a random path of `tree`; updates `conds`"""
+    letters = "abcd"[:tree.ntargets]
+    paths = leaf_paths(tree)
+    deep = [p for p in paths if len(p[0]) >= 2] or paths
+    path, leaf = rng.choice(deep)
+    some = lambda: [l for l in letters if rng.random() < 0.5]
+    out = []
+
+    def put(sels, ticks):
+        conds.update(sels)
+        out.append((dict(sels), ticks))
+
+    def detour(at):
+        """flip selection node path[at] to another branch and give every selector below the new branch a value
+        -> (flip, selectors below, new leaf)"""
+        k, b = path[at]
+        nb = rng.choice([x for x in range(tree.arity[k]) if x != b])
+        sub, nleaf = rng.choice(leaf_paths(tree, tree.nodes[tree.sel_nodes[k]].kids[nb]))
+        return {k: nb}, dict(sub), nleaf
+
+    if name == "inner-retarget":           # the deepest / a middle selector flips, everything above is silent (s16)
+        put(dict(path), list(letters) if rng.random() < 0.7 else some())
+        put({}, [letters[leaf]] if rng.random() < 0.6 else [])
+        at = rng.randrange(1, len(path)) if len(path) > 1 else 0
+        flip, below, nleaf = detour(at)
+        mode = rng.choice(["same-cycle", "prepared", "late"])
+        if mode == "prepared":
+            put(below, some())
+            put(flip, [])
+        elif mode == "same-cycle":
+            put({**flip, **below}, [letters[nleaf]] if rng.random() < 0.3 else [])
+        else:                               # the new branch has no reference yet: the old one stays, then it arrives
+            put(flip, [])
+            put({}, [letters[leaf], letters[nleaf]])
+            put(below, [])
+        put({}, [letters[leaf], letters[nleaf]])
+        put({}, [letters[nleaf]])
+        put({path[at][0]: path[at][1]}, [])     # and back
+    elif name == "top-down":                # the selectors get their first value from the root downwards
+        put({}, list(letters) if rng.random() < 0.5 else some())
+        for k, b in path:
+            put({k: b}, [letters[leaf]] if rng.random() < 0.3 else [])
+        put({}, [letters[leaf]])
+    elif name == "bottom-up":
+        put({}, some())
+        for k, b in reversed(path):
+            put({k: b}, [])
+        put({}, list(letters))
+    elif name == "root-switch":             # the root leaves the path and comes back while the inner reference moved
+        put(dict(path), list(letters))
+        flip, below, nleaf = detour(0)
+        put({**flip, **below} if rng.random() < 0.6 else flip, [])
+        if len(path) > 1:
+            f2, b2, _ = detour(len(path) - 1)
+            put({**f2, **b2}, some())
+        put({path[0][0]: path[0][1]}, [])
+        put({}, list(letters))
+    elif name == "same-target-other-path":  # another path that ends at the same target: nothing may happen
+        same = [p for p in paths if p[1] == leaf and p[0] != path]
+        put(dict(path), list(letters))
+        if same:
+            other = dict(rng.choice(same)[0])
+            put({k: v for k, v in other.items() if conds.get(k) != v}, [])
+        else:
+            put({k: b for k, b in path if rng.random() < 0.6}, [])     # re-selection of the same branches
+        put({}, [letters[leaf]])
+    elif name == "unselected-inner":        # selectors off the current path move; then the root reaches them
+        put(dict(path), list(letters))
+        off = [k for k in range(tree.nsel) if k not in dict(path)]
+        for k in rng.sample(off, min(len(off), 2)):
+            put({k: rng.randrange(tree.arity[k])}, some())
+        flip, below, nleaf = detour(0)
+        put(flip, [])
+        put(below, [])
+        put({}, list(letters))
+    return out
+
+
+CHAIN_SCENARIOS = ["inner-retarget", "inner-retarget", "top-down", "bottom-up", "root-switch", "same-target-other-path",
+                   "unselected-inner"]
+
+
+def render_chain(rng, idx, shape, ncons, stage, text, abstract):
+    tree = tree_of(text)
+    letters = "abcd"[:tree.ntargets]
+    tg = {l: GenTarget() for l in letters}
+    lines = ["case %d" % idx, "cfg %s %d %s tree:%s" % (shape, ncons, stage, text)]
+    for sels, ticks in abstract:
+        toks = ["s%d=%d" % (k, b) for k, b in sorted(sels.items())]
+        for t in ticks:
+            l, hint = (t, None) if isinstance(t, str) else t
+            if not any(x.startswith(l + "=") for x in toks):
+                toks.append("%s=%s" % (l, gen_delta(rng, shape, tg[l], hint)))
+        rng.shuffle(toks)
+        lines.append(" ".join(["c"] + toks))
+    lines.append("run")
+    return Case(lines)
+
+
+def gen_chain_case(rng, idx, maxlen):
+    shape = rng.choice(["ts", "ts", "ts", "tss", "tss", "tsd", "tsd"])
+    ncons = rng.choice([1, 2, 2, 3])
+    stage = rng.choice(["direct", "direct", "direct", "direct", "pass", "inner", "innerref"])
+    if rng.random() < 0.7:
+        total = sum(w for w, _ in TOPOLOGIES)
+        x = rng.random() * total
+        for w, text in TOPOLOGIES:
+            x -= w
+            if x < 0:
+                break
+    else:
+        text = random_tree_text(rng)
+    tree = tree_of(text)
+    conds, abstract = {}, []
+    if rng.random() < 0.3:
+        abstract += random_chain_cycles(rng, tree, rng.randint(1, 4), conds, 0.5)
+    if rng.random() < 0.75:
+        abstract += chain_scenario(rng, tree, rng.choice(CHAIN_SCENARIOS), conds)
+    abstract += random_chain_cycles(rng, tree, rng.randint(1, max(1, maxlen - len(abstract))), conds)
+    return render_chain(rng, idx, shape, ncons, stage, text, abstract[:maxlen + 5])
+
+
+def exhaustive_chain(rng, text, shapes, length, start_idx, tick_sets):
+    """every history of `length` cycles over {each selector: silent | one of its branches} x tick_sets"""
+    tree = tree_of(text)
+    sel_alpha = [{}]
+    for k in range(tree.nsel):
+        sel_alpha = [dict(a, **({k: b} if b is not None else {})) for a in sel_alpha for b in [None] + list(range(tree.arity[k]))]
+    alpha = [(a, list(t)) for a in sel_alpha for t in tick_sets]
+    cases, idx = [], start_idx
+
+    def rec(prefix):
+        nonlocal idx
+        if len(prefix) == length:
+            for shape in shapes:
+                cases.append(render_chain(rng, idx, shape, 2, "direct", text, prefix))
+                idx += 1
+            return
+        for sym in alpha:
+            rec(prefix + [sym])
+    rec([])
+    return cases
+
+
 def exhaustive(rng, shapes, length, start_idx):
     alpha = [(s, [l for l, on in zip("ab", (ta, tb)) if on]) for s in (None, "a", "b") for ta in (0, 1) for tb in (0, 1)]
     cases, idx = [], start_idx
@@ -253,12 +579,24 @@ def corpus_cases():
 
 def streams(rng, tier, seed):
     quick = tier == "quick"
-    n_rand = 1400 if quick else 40000
+    n_rand = 1000 if quick else 40000
+    n_chain = 1000 if quick else 40000
     maxlen = 9 if quick else 14
     rand = [gen_case(rng, i, maxlen) for i in range(n_rand)]
+    chain = [gen_chain_case(rng, 200000 + i, maxlen + 2) for i in range(n_chain)]
     exh = exhaustive(rng, ["ts"] if quick else ["ts", "tss", "tsd"], 3 if quick else 4, 100000)
+    # two-level tree, every history: quick 3 cycles with {no target, every target} ticking, thorough 3 cycles with
+    # every subset of the targets and 4 cycles with {none, all}
+    exh_chain = exhaustive_chain(rng, "i(i(a,b),c)", ["ts"], 3, 300000, [(), ("a", "b", "c")])
+    if not quick:
+        subsets = [(), ("a",), ("b",), ("c",), ("a", "b", "c")]
+        exh_chain += exhaustive_chain(rng, "i(i(a,b),c)", ["tss"], 3, 400000, subsets)
+        exh_chain += exhaustive_chain(rng, "i(a,m(b,c,a))", ["ts"], 3, 900000, [(), ("a", "b", "c")])
+        exh_chain += exhaustive_chain(rng, "i(i(a,b),c)", ["ts"], 4, 1000000, [(), ("a", "b", "c")])
     out = [Stream("histories", EXE, model_cmd("C13"), corpus_cases() + rand),
-           Stream("small-scope", EXE, model_cmd("C13"), exh)]
+           Stream("chained", EXE, model_cmd("C13"), chain),
+           Stream("small-scope", EXE, model_cmd("C13"), exh),
+           Stream("small-scope-chained", EXE, model_cmd("C13"), exh_chain)]
     if os.environ.get("C13_FINDINGS", "on") != "off":
         cases = [Case(["case %d" % i] + b) for i, b in enumerate(DIRECTED_FINDINGS)]
         keyed = [c for c in rand if " tss " in c.lines[1] or " tsd " in c.lines[1]][: (60 if quick else 600)]
@@ -344,12 +682,15 @@ def walk(stream, case, out):
     strict = stream == "strict-delta"
     bad, feats = [], set()
     shape, ncons, stage, cmp = "ts", 1, "direct", False
+    tree, chained = FLAT[False], False
     tg, sel, cyc, ever_sel = [Ref(), Ref()], None, 0, set()
+    conds, cur = {}, [None] * len(tree.nodes)
     out = list(out) + ["<none>"] * (len(case.lines) - len(out))
 
     def reset():
-        nonlocal tg, sel, cyc, ever_sel
-        tg, sel, cyc, ever_sel = [Ref() for _ in range(3 if cmp else 2)], None, 0, set()
+        nonlocal tg, sel, cyc, ever_sel, conds, cur
+        tg, sel, cyc, ever_sel = [Ref() for _ in range(tree.ntargets)], None, 0, set()
+        conds, cur = {}, [None] * len(tree.nodes)
 
     for ln, o in zip(case.lines, out):
         w = ln.split()
@@ -361,13 +702,24 @@ def walk(stream, case, out):
             continue
         if w[0] == "case":
             shape, ncons, stage, cmp = "ts", 1, "direct", False
+            tree, chained = FLAT[False], False
             reset()
             continue
         if w[0] == "cfg":
             if o == "ok":
                 shape, ncons, stage = w[1], int(w[2]), w[3]
                 cmp = len(w) > 4 and w[4] == "cmp"
-                feats.update(["shape=" + shape, "consumers=%d" % ncons, "stage=" + stage, "selector=" + ("if_cmp" if cmp else "if_then_else")])
+                chained = len(w) > 4 and w[4].startswith("tree:")
+                tree = tree_of(w[4][5:]) if chained else FLAT[cmp]
+                feats.update(["shape=" + shape, "consumers=%d" % ncons, "stage=" + stage])
+                if chained:
+                    kinds = "".join(sorted({n.kind for n in tree.nodes} - {"l"}))
+                    feats.update(["selector=tree", "tree-depth=%d" % tree.depth(), "tree-nodes=" + kinds,
+                                  "tree-selectors=%d" % tree.nsel])
+                    if len({n.target for n in tree.nodes if n.kind == "l"}) < sum(1 for n in tree.nodes if n.kind == "l"):
+                        feats.add("tree-shares-a-target")
+                else:
+                    feats.add("selector=" + ("if_cmp" if cmp else "if_then_else"))
             reset()
             continue
         if w[0] != "c" or o == "bad-op":
@@ -378,7 +730,7 @@ def walk(stream, case, out):
         head = dict(tok.split("=", 1) for tok in parts[0].split())
         seen = [parse_seen(p) for p in parts[1:]]
         toks = dict(t.split("=", 1) for t in w[1:])
-        letters = "abc" if cmp else "ab"
+        letters = "abcd"[:tree.ntargets]
         before = [(t.valid, dict(t.items)) for t in tg]
         own = {}
         for i, l in enumerate(letters):
@@ -389,12 +741,38 @@ def walk(stream, case, out):
                 bad.append("[replay] cycle %d: target %s input %r but its recorder stored %r" % (cyc, l, toks.get(l), r))
         old = sel
         retarget = False
-        if "sel" in toks:
-            new = letters.index(toks["sel"])
+        # selector ticks of this cycle (flat: `sel=<letter>` is the root's selector)
+        sel_ticks = {0: letters.index(toks["sel"])} if "sel" in toks else {}
+        sel_ticks.update({int(k[1:]): int(v) for k, v in toks.items() if re.fullmatch(r"s\d", k)})
+        old_path = tree.path(conds)
+        conds.update(sel_ticks)
+        old_cur = cur
+        cur = tree.designate(conds, cur)
+        published = sum(1 for i, n in enumerate(tree.nodes) if n.kind != "l" and cur[i] != old_cur[i])
+        if sel_ticks:
+            new = cur[0]
             retarget = new != sel
-            if not retarget:
+            if not retarget and new is not None:
                 feats.add("reselect-same")
             sel = new
+        if chained:
+            if head.get("n") != str(published):
+                bad.append("[publish-count] cycle %d: %s nodes of the tree published a reference, %d changed what they "
+                           "designate" % (cyc, head.get("n"), published))
+            resolved = tree.resolve(conds)
+            if resolved is None and sel is not None:
+                feats.add("stale-reference-kept")
+            if retarget:
+                if 0 not in sel_ticks:
+                    feats.add("inner-retarget-root-silent")
+                    if old is None:
+                        feats.add("inner-first-publish-root-silent")
+                elif len(sel_ticks) > 1:
+                    feats.add("root-and-inner-selectors-tick-together")
+            elif sel is not None and tree.path(conds) != old_path:
+                feats.add("path-changes-target-unchanged")
+            if sel_ticks and not retarget and any(k not in tree.path(conds) for k in sel_ticks) and published:
+                feats.add("unselected-inner-retarget")
         cur = tg[sel] if sel is not None else None
         sel_ticked = sel in own
         new_valid = cur is not None and cur.valid
@@ -456,7 +834,7 @@ def walk(stream, case, out):
                     feats.add("F2-sampled-start")
                 else:
                     why = ("only unselected targets ticked" if unselected else
-                           "the unchanged reference was re-published" if "sel" in toks else "nothing ticked")
+                           "the unchanged reference was re-published" if sel_ticks else "nothing ticked")
                     if retarget:
                         why = "the reference was retargeted to a target that is not valid"
                     bad.append("[spurious] cycle %d: %s was evaluated although %s" % (cyc, name, why))
@@ -527,4 +905,5 @@ def features(stream, case, out):
 def nontrivial(stream, case, out):
     f = walk(stream, case, out)[1]
     return bool(f & {"retarget-to-earlier-ticked", "unselected-tick", "unselected-tick-only", "reselect-same",
-                     "retarget-back", "old-target-ticks-in-retarget-cycle"})
+                     "retarget-back", "old-target-ticks-in-retarget-cycle", "inner-retarget-root-silent",
+                     "path-changes-target-unchanged", "stale-reference-kept"})
